@@ -240,8 +240,8 @@ pub fn run(ctx: &mut Ctx) -> Report {
         }
         return rep;
     }
-    let n = ctx.t(10, 120);
-    let builds = ctx.t(4, 10);
+    let n = ctx.t(10, 60);
+    let builds = ctx.t(4, 8);
     // first, sequentially: logged + trace-validated builds of the first few cases
     let traced_cases = ctx.t(6, 30).min(n);
     let traced = ctx.t(2, 3);
